@@ -42,7 +42,9 @@ MIN = {'quick': {'distinct': 4000,
                             'XML-special word': 300, 'tab-stop length': 300,
                             'brackets refused (discontinuous)': 200,
                             'brackets skipped (discontinuous)': 100,
-                            'all option subsets (small tree)': 2048}},
+                            'all option subsets (small tree)': 2048,
+                            'root label other than VROOT': 1000,
+                            'inner node labelled VROOT': 300}},
        'thorough': {'distinct': 150000,
                     'hooks': dict([('treeoutput.' + f, 50000)
                                    for f in FORMATS])}}
@@ -327,6 +329,10 @@ def finish(ctx, case, m, disc, none):
     if any(ord(c) > 127 for w in words for c in w):
         ctx.stratum('non-ASCII word')
         special = True
+    if m.label != 'VROOT':
+        ctx.stratum('root label other than VROOT')
+    if any(n.label == 'VROOT' for n in m.nodes() if n.parent is not None):
+        ctx.stratum('inner node labelled VROOT')
     ctx.stratum('format ' + case['fmt'])
     ctx.case([case['spec']['root'], case['fmt'], sorted(case['params'].items()),
               case.get('style')],
@@ -386,6 +392,15 @@ def make_tree(rng, small=False):
                     moves=rng.choice([0, 0, 0, 1, 2, 4]),
                     root_pieces=rng.choice([1, 1, 2, 3]),
                     sid=rng.choice([1, 7, 42, 1234]))
+    r = rng.random()
+    if r < 0.25:
+        spec['root']['l'] = rng.choice(['TOP', 'ROOT', 'S', 'VROOT+S'])
+    if r > 0.85:
+        # a constituent labelled like the default root somewhere inside
+        inner = [x for x in gen.walk(spec['root'])
+                 if 'c' in x and x is not spec['root']]
+        if inner:
+            rng.choice(inner)['l'] = 'VROOT'
     decorate_spec(rng, spec)
     return spec
 
